@@ -45,6 +45,7 @@ CHECKS["C17"] = {
         H("parser", "c17.go", "VerifH_C17_deep", ["done"],
           quick={"params": {"steps": 2, "shorts": 1}, "timeout": 280, "shards": 8},
           thorough={"params": {"steps": 3, "shorts": 2}, "timeout": 2400, "shards": 8}),
+        H("parser", "c17.go", "VerifH_C17_bulk", ["done"], quick={"timeout": 280, "shards": 3}),
     ],
     "bounds": {"quick": "file lengths {0,1,3,5,1023,1024,1025,2047,2048,2050,3072,5000} with fully symbolic contents; every sequence of 2 operations over the 9 operation kinds from New() and from a state 1000 bytes into the file; seek targets symbolic within +-2 of {0, L, L/2, 1024, 2048}; read sizes symbolic near 0 and 1024 plus {512,700,2100,negative}; reader may return 1 short read (1 byte or n-1 bytes) or the final bytes together with io.EOF",
                "thorough": "as quick with 3 operations and 2 short reads"},
@@ -75,6 +76,7 @@ CHECKS["C09"] = {
         H("cmap", "c09.go", "VerifH_C09_f4enc", ["encoded"],
           quick={"params": {"maxentries": 2}, "timeout": 280, "unwind": 70000},
           thorough={"params": {"maxentries": 3, "lowwindow": 0}, "timeout": 2400, "unwind": 70000}),
+        H("cmap", "c09.go", "VerifH_C09_f4blocks", ["two glyphIdArray segments"], quick={"timeout": 280, "unwind": 70000}, thorough={"params": {"lowwindow": 1}, "timeout": 2400, "unwind": 70000}),
         H("cmap", "c09.go", "VerifH_C09_f12", ["decoded"],
           quick={"params": {"maxentries": 3}, "timeout": 280},
           thorough={"params": {"maxentries": 4}, "timeout": 2400}),
@@ -116,6 +118,7 @@ CHECKS["C14"] = {
     "harnesses": [
         H("mac", "c14.go", "VerifH_C14_mac", ["bytes"], quick={"params": {"maxlen": 1}, "timeout": 280}, thorough={"params": {"maxlen": 2}, "timeout": 2400}),
         H("mac", "c14.go", "VerifH_C14_mac_runes", ["representable"], quick={"timeout": 280}),
+        H("mac", "c14.go", "VerifH_C14_mac_table", ["done"], quick={"timeout": 280}),
         H("name", "c14.go", "VerifH_C14_utf16", ["done"], quick={"timeout": 280}),
         H("name", "c14.go", "VerifH_C14_utf16_units", ["done"], quick={"timeout": 280}),
         H("name", "c14.go", "VerifH_C14_name", ["decoded"], quick={"params": {"maxids": 1, "langs": 1, "maxchars": 2}, "timeout": 280}, thorough={"params": {"maxids": 2, "langs": 3, "maxchars": 2}, "timeout": 2400}),
@@ -148,7 +151,7 @@ CHECKS["C13"] = {
 CHECKS["C05"] = {
     "harnesses": [
         H("cff", ["c05.go", "t2ref.go"], "VerifH_C05_path", ["interpreted"], quick={"params": {"fixed": 0}, "timeout": 280}, thorough={"params": {"fixed": 1}, "timeout": 2400}),
-        H("cff", ["c05.go", "t2ref.go"], "VerifH_C05_stems", ["interpreted"], quick={"timeout": 280}),
+        H("cff", ["c05.go", "t2ref.go"], "VerifH_C05_stems", ["interpreted"], quick={"params": {"stemchoices": 4}, "timeout": 280, "shards": 2}, thorough={"params": {"stemchoices": 5}, "timeout": 2400, "shards": 2}),
         H("cff", ["c05.go", "t2ref.go"], "VerifH_C05_arith", ["interpreted"], quick={"timeout": 280}),
         H("cff", ["c05.go", "t2ref.go"], "VerifH_C05_stack", ["interpreted"], quick={"timeout": 280}),
         H("cff", ["c05.go", "t2ref.go"], "VerifH_C05_subr", ["called"], quick={"timeout": 280}),
@@ -156,7 +159,7 @@ CHECKS["C05"] = {
         H("cff", ["c05.go", "t2ref.go"], "VerifH_C05_fault", ["done"], quick={"timeout": 200}),
         H("cff", ["c05.go", "t2ref.go"], "VerifH_C05_bytes", ["accepted"], quick={"params": {"maxlen": 3}, "timeout": 280}, thorough={"params": {"maxlen": 5}, "timeout": 2400}),
     ],
-    "bounds": {"quick": "programs: [width] + one moveto + one path operator (all 14 path/flex operators, every legal operand count up to 13) + endchar; stem programs with 0..2 hstem/vstem pairs, explicit or implicit vstem, hintmask/cntrmask, second mask; one arithmetic/conditional/stack/storage operator with symbolic operands; subroutine tables of size {0,1,1239,1240,33899,33900,40000} with symbolic biased index near both table ends, local and global; call depth 8..11; 8 single-fault classes; arbitrary bytes of length <=3.  Operands symbolic int16 (operator 28) in [-10000,10000] [thorough: 16.16 via operator 255]",
+    "bounds": {"quick": "programs: [width] + one moveto + one path operator (all 14 path/flex operators, every legal operand count up to 13) + endchar; stem programs with {0,1,2,4} [8] hstem/vstem pairs (so that the total is a multiple of 8 or not), explicit or implicit vstem, hintmask/cntrmask, second mask; one arithmetic/conditional/stack/storage operator with symbolic operands; subroutine tables of size {0,1,1239,1240,33899,33900,40000} with symbolic biased index near both table ends, local and global; call depth 8..11; 8 single-fault classes; arbitrary bytes of length <=3.  Operands symbolic int16 (operator 28) in [-10000,10000] [thorough: 16.16 via operator 255]",
                "thorough": "16.16 operands; arbitrary bytes <=5"},
     "outside": ["operands outside [-32000,32000] (the decoder clamps deltas to that range by documented design)", "sqrt, div, random (outside the exact dyadic fragment)", "programs with more than one path operator after the prefix", "agreement with x/image"],
     "assumptions": ["reference interpreter written from Adobe TN5177 (harness/cff/t2ref.go) is the oracle", "arithmetic operands in [-150,150] so that results stay within the coordinate range"],
@@ -210,12 +213,12 @@ CHECKS["C08"] = {
         H("opentype/classdef", "c08.go", "VerifH_C08_classdef_bytes", ["accepted"], quick={"params": {"maxlen": 8}, "timeout": 280}, thorough={"params": {"maxlen": 16}, "timeout": 2400}),
         H("opentype/gtab", _G, "VerifH_C08_gsub", ["read"], quick={"timeout": 280}),
         H("opentype/gtab", _G, "VerifH_C08_gpos", ["read"], quick={"timeout": 280}),
-        H("opentype/gtab", _G, "VerifH_C08_context", ["read"], quick={"params": {"ctxbig": 0}, "timeout": 280, "shards": 4}, thorough={"params": {"ctxbig": 1}, "timeout": 2400, "shards": 4}),
+        H("opentype/gtab", _G, "VerifH_C08_context", ["read"], quick={"params": {"ctxbig": 0}, "timeout": 280, "shards": 6}, thorough={"params": {"ctxbig": 1}, "timeout": 2400, "shards": 6}),
         H("opentype/gtab", _G, "VerifH_C08_lookuplist", ["read"], quick={"params": {"maxlookups": 2}, "timeout": 280}, thorough={"params": {"maxlookups": 3}, "timeout": 2400}),
     ],
-    "bounds": {"quick": "coverage tables of 0..4 symbolic glyph ids over the full 16-bit range, arbitrary coverage bytes (<=12); class definitions of 0..3 glyphs inside an 8-id window with symbolic classes, arbitrary bytes (<=12); GSUB 1.1/1.2/2.1/3.1/4.1, GPOS 1.1/1.2/2.1, (chained) sequence context formats 1 and 3 with 1..2 coverage glyphs, <=2 rules/ligatures/alternates, <=2 nested actions, all ids/values symbolic; lookup lists of 0..2 lookups with symbolic flags and mark filtering set",
+    "bounds": {"quick": "coverage tables of 0..4 symbolic glyph ids over the full 16-bit range, arbitrary coverage bytes (<=12); class definitions of 0..3 glyphs inside an 8-id window with symbolic classes, arbitrary bytes (<=12); GSUB 1.1/1.2/2.1/3.1/4.1, GPOS 1.1/1.2/2.1, (chained) sequence context formats 1, 2 and 3 (class based formats with nil / empty / one-rule rule sets per class) with 1..2 coverage glyphs, <=2 rules/ligatures/alternates, <=2 nested actions, all ids/values symbolic; lookup lists of 0..2 lookups with symbolic flags and mark filtering set",
                "thorough": "6 coverage glyphs, 5 classdef glyphs, 3 lookups"},
-    "outside": ["class-based context formats (5.2/6.2), GPOS 2.2/3/4/5/6, GSUB 8.1 round trips", "extension subtables for lookup lists beyond 64 KiB", "gtab.Info with script/language/feature lists (x/text language tags)", "gdef.Table"],
+    "outside": ["GPOS 2.2/3/4/5/6, GSUB 8.1 round trips", "extension subtables for lookup lists beyond 64 KiB", "gtab.Info with script/language/feature lists (x/text language tags)", "gdef.Table"],
     "assumptions": ["coverage tables have indices 0..n-1 in increasing glyph order (value domain)", "class 0 entries are not stored (normal form)"],
 }
 
